@@ -233,10 +233,11 @@ class Num:
     """An abstract number: a sympy expression over named unknowns.  Arithmetic builds expressions; comparisons are
     answered by the oracle the analysing rule installs (`Interp.num_oracle`), by sympy when the sign is known, or not at all
     (Unsupported: the computation left the domain the rule set up)."""
-    __slots__ = ("e",)
+    __slots__ = ("e", "fl")
 
-    def __init__(self, e):
+    def __init__(self, e, fl=False):
         self.e = e
+        self.fl = fl              # definitely a Python float (came through a float literal, true division, float(), math.*)
 
     def __repr__(self):
         return f"Num({self.e})"
@@ -1505,7 +1506,7 @@ class Interp:
             return not self.truthy(v, env.mod.site(n))
         if isinstance(n.op, ast.USub):
             if isinstance(v, Num):
-                return Num(-v.e)
+                return Num(-v.e, v.fl)
             if isinstance(v, Sym) and v.kind in ("int", "float"):
                 return Sym(v.kind, v.src, neg=not v.neg, coerced=v.coerced, uid=v.uid)
             if isinstance(v, (int, float)) and not isinstance(v, bool):
@@ -1542,14 +1543,15 @@ class Interp:
             ea, eb = _to_expr(a), _to_expr(b)
             if ea is not None and eb is not None:
                 sp = _sp()
+                fl = any(isinstance(x, float) or getattr(x, "fl", False) for x in (a, b))
                 if isinstance(op, ast.Add):
-                    return Num(ea + eb)
+                    return Num(ea + eb, fl)
                 if isinstance(op, ast.Sub):
-                    return Num(ea - eb)
+                    return Num(ea - eb, fl)
                 if isinstance(op, ast.Mult):
-                    return Num(ea * eb)
+                    return Num(ea * eb, fl)
                 if isinstance(op, ast.Div):
-                    return Num(ea / eb)
+                    return Num(ea / eb, True)
                 if isinstance(op, ast.Pow):
                     return Num(ea ** eb)
                 if isinstance(op, ast.FloorDiv):
@@ -1795,6 +1797,9 @@ class Interp:
         ea, eb = _to_expr(a), _to_expr(b)
         if ea is None or eb is None:
             raise Unsupported(f"comparison of an abstract number with {type(a if ea is None else b).__name__} at {site}")
+        watch = getattr(self, "num_compare_watch", None)
+        if watch is not None:
+            watch(opname, a, b, site)
         oracle = getattr(self, "num_oracle", None)
         if oracle is not None:
             r = oracle(opname, ea, eb)
@@ -2624,7 +2629,7 @@ class Interp:
             if name == "abs":
                 return Num(sp.Abs(args[0].e))
             if name == "float":
-                return args[0]
+                return Num(args[0].e, True) if isinstance(args[0], Num) else args[0]
             if name == "int":
                 return Num(self.num_floor(args[0], site, "int()"))
             if name in ("min", "max") and (len(args) > 1 or isinstance(args[0], AList)) and getattr(self, "num_oracle", None) is not None \
@@ -2647,7 +2652,8 @@ class Interp:
             if name == "sum":
                 es = [_to_expr(x) for x in args[0].items]
                 if all(e is not None for e in es):
-                    return Num(sum(es, _to_expr(args[1]) if len(args) > 1 else sp.Integer(0)))
+                    return Num(sum(es, _to_expr(args[1]) if len(args) > 1 else sp.Integer(0)),
+                               any(isinstance(x, float) or getattr(x, "fl", False) for x in list(args[0].items) + list(args[1:2])))
             if name == "isinstance":
                 t = args[1]
                 ts = t.items if isinstance(t, AList) else [t]
@@ -3344,7 +3350,7 @@ class Interp:
             table = {"sqrt": sp.sqrt, "log": sp.log, "exp": sp.exp, "fabs": sp.Abs, "atanh": sp.atanh, "tanh": sp.tanh, "erf": sp.erf,
                      "log1p": lambda x: sp.log(1 + x), "expm1": lambda x: sp.exp(x) - 1}
             if fn_ in table and len(args) == 1:
-                return Num(table[fn_](e0))
+                return Num(table[fn_](e0), True)
             if fn_ == "log" and len(args) == 2:
                 return Num(sp.log(e0, _to_expr(args[1])))
             if fn_ == "pow" and len(args) == 2:
